@@ -13,6 +13,7 @@ EXTENDS Debugger, Json, IOUtils
 EnvRec == ndJsonDeserialize(IOEnv.ENTRIES)[1]
 EntriesDef == EnvRec.entries
 FinalDef == EnvRec.final
+GrammarRulesDef == IF "rules" \in DOMAIN EnvRec THEN { EnvRec.rules[i] : i \in 1..Len(EnvRec.rules) } ELSE {}
 BpRulesDef == { EnvRec.entries[i] : i \in 1..Len(EnvRec.entries) } \ {"top"}
 
 \* the cause a stuck restart is identified by (known_findings.json): the previous thread is blocked in a send
@@ -39,10 +40,10 @@ EmitStuck == (ctl = "runjoin" /\ Stuck) => Dump("BEH", "stuck")
 \* Scripts reach situations that random scripts of the same length practically never do: a continue that arrives
 \* after the last breakpoint of a run followed by a restart, a breakpoint deleted or added while the parser waits ...
 ScriptDef == IF "script" \in DOMAIN EnvRec THEN EnvRec.script ELSE <<>>
-IsCmd(h) == h.who = "ctl" /\ h.act \in {"cmd", "Recv", "add", "del", "delall"}
+IsCmd(h) == h.who = "ctl" /\ h.act \in {"cmd", "Recv", "add", "del", "delall", "addall"}
 CmdOf(h) == CASE h.act = "cmd" -> [c |-> h.data, r |-> ""]
               [] h.act = "Recv" -> [c |-> "recv", r |-> ""]
-              [] h.act = "delall" -> [c |-> "delall", r |-> ""]
+              [] h.act \in {"delall", "addall"} -> [c |-> h.act, r |-> ""]
               [] OTHER -> [c |-> h.act, r |-> h.data]
 FollowsScript ==
   LET cs == SelectSeq(hist, IsCmd) IN
